@@ -1,6 +1,6 @@
 """C15 position primitives: in-process monitor (harness op `pos`) comparing
 LineIndex / SourceCode / newline iterators / TextRange with a naive model."""
-from .. import core
+from .. import core, sanitize
 
 VARIANT = "deflt-chk"
 
@@ -39,6 +39,21 @@ def run(res):
         if r["mismatches"] > len(r["shown"]):
             res.counters["mismatches_not_shown"] += r["mismatches"] - len(r["shown"])
         res.distinct.add(repr(job).encode())
+    # the same model comparison with the memory-safety instrumentation on (find_newline's get_unchecked, the
+    # char-boundary arithmetic of the column computation): valgrind memcheck always, Miri in the thorough tier
+    import json
+    for tool, args in (("valgrind", ["exhaustive", 5, res.seed % 16, 16, 0]), ("valgrind", ["random", res.seed, 300, 120, 0])) + \
+            ((("miri", ["exhaustive", 3, 0, 1, 0]), ("miri", ["random", res.seed, 12, 60, 0])) if thorough else ()):
+        got = sanitize.batch_under_tools(res, bins, "pos", args, b"", tools=(tool,), variant=VARIANT, what="pos " + " ".join(map(str, args)))[tool]
+        if got:
+            try:
+                r = json.loads(got.strip().split("\n")[-1])
+            except ValueError:
+                res.inconclusive.append("%s run of pos produced no report" % tool)
+                continue
+            res.cover["queries_under_" + tool] = res.cover.get("queries_under_" + tool, 0) + r["queries"]
+            for m in r["shown"]:
+                res.add("unlisted:" + m["what"], m, {"op": "pos", "args": args, "text": m["text"], "tool": tool})
     # distinct = distinct texts checked (each text is a different case)
     res.cover["texts_checked"] = texts
     res.cover["queries_checked"] = queries
